@@ -184,6 +184,10 @@ type JenID struct {
 	ParentPointer *JenID
 	Code          *jen.Statement
 	Variable      bool
+	// ImplicitDeref is set when Code still is the pointer ParentPointer:
+	// selectors can be applied to it as it is, the value as a whole has to be
+	// dereferenced first.
+	ImplicitDeref bool
 }
 
 func (j *JenID) Pointer(t *Type, namer func(string) string) ([]jen.Code, *JenID) {
